@@ -29,6 +29,8 @@ CFG = {
         "Swat4.C15.revive_one_per_server",
         "Swat4.C15.revive_at_most_one_per_server",
         "Swat4.C15.overlongState_keyed",
+        "Swat4.C15.facts_cycle_deadline",
+        "Swat4.C15.facts_deadline_is_next_tick",
     ],
     "shards": (4, 16),
     "nontrivial": _nontrivial,
